@@ -15,7 +15,7 @@ RULE = ('LLE: mixtures of 2-5 chemicals containing a partially miscible pair (wa
         'use_cache True and False, compared with a fresh solver on a fresh stream. SLE: glucose / tetradecanol / acetic acid in 1-3 solvents, T 250-450 K, given and computed solubility, pure solute above / below Tm. '
         'non-trivial = two non-empty liquid phases (LLE) / solute partly dissolved or a pure solute (SLE); distinct = hash of the case')
 MIN_NONTRIVIAL = {'quick': 150, 'thorough': 3000}
-ASSUMPTIONS = ['equal-activity bound (relative to the largest activity): 1e-3; for the Gibbs-minimising methods shgo and differential evolution a deviation up to 1e-1 is accepted only when the Gibbs energy of the returned split (the solver objective, per mole of feed) is within the solver tolerance 1e-6 of the minimum obtained by polishing it', 'labels l/L are compared up to a swap when no top chemical is named']
+ASSUMPTIONS = ['equal-activity bound (relative to the largest activity): 1e-3 for every method; larger deviations of the Gibbs-minimising methods are classified by mechanism (component at the starting midpoint / Gibbs energy within 1e-6 of the polished minimum / beyond it) and reported under those keys', 'labels l/L are compared up to a swap when no top chemical is named']
 PAIRS = [('Water', 'Octane'), ('Water', 'Hexane'), ('Water', 'Toluene'), ('Water', 'Butanol'), ('Water', 'Octanol'), ('Water', 'EthylAcetate')]
 EXTRA = ('Ethanol', 'Methanol', 'Acetone', 'Propanol', 'AceticAcid')
 _th = {}
@@ -132,21 +132,18 @@ def run_lle(case, rec):
         bound = 1e-3
         sfx = ''
         if dev > bound and gibbs:
-            # which components deviate, and are they sitting at the optimiser's starting midpoint (half in each liquid)?
-            rel = np.abs(al - aL) / max(al[m].max(), aL[m].max())
-            bad = [k_ for k_ in range(len(ids)) if m[k_] and rel[k_] > bound]
+            # mechanism of the mismatch, by what can be observed on the result:
+            #  - a chemical sits exactly at the optimiser's starting point (half of it in each liquid): the optimiser never moved that variable;
+            #  - otherwise the Gibbs energy of the returned split (the solver's objective, per mole of feed) is compared with the minimum obtained by
+            #    polishing it: within the configured tolerance (f_tol / tol = 1e-6) the optimiser stopped where it was told to, although the
+            #    activities (of components that barely move the objective) still differ; beyond it the optimiser stopped early.
             frac = L / (l + L + 1e-300)
-            if bad and all(abs(frac[k_] - 0.5) <= 1e-6 for k_ in bad): sfx = '/component-left-at-midpoint'
-            elif dev <= 1e-1:
-                # the Gibbs minimisers stop on the objective (f_tol / tol = 1e-6), not on the activities: a split whose Gibbs energy is within that
-                # tolerance of the polished minimum is the declared resolution of the method (trace components barely move the objective)
+            if any(flows[k_] > 0 and abs(frac[k_] - 0.5) <= 1e-9 for k_ in range(len(ids))): sfx = '/component-left-at-midpoint'
+            else:
                 gap = gibbs_gap(th, ids, flows / F, L / F, T)
                 rec.hit('gibbs-gap-evaluated')
-                if gap <= 1e-6:
-                    rec.hit('within-optimiser-resolution'); rec.ok('equal-activity:gibbs-gap', residual=max(gap, 0.0))
-                    bound = 1e-1
-                else: sfx = f'/gibbs-gap>1e-6'
-        rec.check(dev <= bound, 'equal-activity', mtag + sfx, f'lle({method}) at T={T}: activities differ between the liquids by {dev:.3g} of the largest activity (l: {al.tolist()}, L: {aL.tolist()}; ids={ids})', residual=dev if bound == 1e-3 else None)
+                sfx = '/within-objective-tolerance' if gap <= 1e-6 else '/gibbs-gap>1e-6'
+        rec.check(dev <= bound, 'equal-activity', mtag + sfx, f'lle({method}) at T={T}: activities differ between the liquids by {dev:.3g} of the largest activity (l: {al.tolist()}, L: {aL.tolist()}; ids={ids})', residual=dev)
         # top chemical has a mass fraction in L at least as high as in l
         if top is not None:
             MW = th.chemicals.MW; j = ids.index(top)
